@@ -100,6 +100,17 @@ func init() {
 				if rng.Intn(2) == 0 {
 					fl.Key = supportedKeys[rng.Intn(len(supportedKeys))]
 				}
+				if i%3 == 0 { // a pool of two or three keys: the piece leaves a key and comes back to it
+					pool := []string{supportedKeys[rng.Intn(28)], supportedKeys[rng.Intn(28)], "C"}[:2+rng.Intn(2)]
+					for j := range d {
+						if d[j].Key != "" {
+							d[j].Key = pool[rng.Intn(len(pool))]
+						}
+					}
+					if fl.Key != "" {
+						fl.Key = pool[0]
+					}
+				}
 				cases = append(cases, Case{"doc": d, "flags": fl})
 			}
 			return cases
@@ -140,6 +151,14 @@ func init() {
 				}
 			}
 			rec(Doc{}, 0)
+			// values whose tick count is a hair below a half (only exact arithmetic tells them from the half)
+			cases = append(cases,
+				Case{"doc": Doc{ch(Frac{1, 1}, Frac{1000, 1920001}), ch(Frac{1, 1})}, "flags": Flags{}},
+				Case{"doc": Doc{rs(Frac{500, 960001}), ch(Frac{3, 1}, Frac{1500, 1920001}), rs(Frac{2500, 1920001}), ch(Frac{1, 2})}, "flags": Flags{}},
+				Case{"doc": Doc{ch(Frac{1, 1}), {Rest: true, Vals: []Frac{{1, 1}}}, {Deg: "5", Sym: "", Vals: []Frac{{1, 1}}, Lic: "la"}, {Rest: true, Vals: []Frac{{1, 2}}},
+					{Deg: "1", Sym: "", Vals: []Frac{{1, 1}}, Mrk: "m"}, {Rest: true, Vals: []Frac{{1, 3}}}, {Deg: "4", Sym: "", Vals: []Frac{{1, 1}}, Txt: " "}}, "flags": Flags{}},
+				Case{"doc": Doc{ch(Frac{1, 1}), {Rest: true, Vals: []Frac{{1, 1}}}, {Deg: "5", Sym: "", Vals: []Frac{{1, 1}}, Lic: "la"}, {Rest: true, Vals: []Frac{{1, 2}}},
+					{Deg: "1", Sym: "", Vals: []Frac{{1, 1}}, Mrk: "m"}}, "flags": Flags{}, "tracks": 3})
 			// close to the limit of the property (total below 2^28 ticks = 279,620 beats)
 			cases = append(cases,
 				Case{"doc": Doc{ch(Frac{100000, 1}), rs(Frac{150000, 1}), ch(Frac{1, 3})}, "flags": Flags{}},
@@ -147,7 +166,7 @@ func init() {
 				Case{"doc": Doc{ch(Frac{1, 3}, Frac{90000, 1}, Frac{1, 3}), ch(Frac{180000, 7})}, "flags": Flags{}})
 			for i := 0; i < nr; i++ {
 				o := GenOpt{MaxLen: maxLen, RestP: 0.3, KeyP: 0.05, SettingP: 0.05, Fractions: true, MultiVals: true, MaxDeg: 7, BassP: 0.2,
-					Syms: []string{"", "m", "7", "maj7", "sus4"}, BigVals: i%5 == 0}
+					Syms: []string{"", "m", "7", "maj7", "sus4"}, BigVals: i%5 == 0, Texts: []string{"x", "la", " ", "end"}, TextP: 0.12}
 				d := randomDoc(rng, o)
 				if i%6 == 1 { // one instance written as a long chain of fractions, another as a tiny one
 					den := []int{7, 256, 997, 1000, 9}[rng.Intn(5)]
@@ -204,6 +223,10 @@ func init() {
 				docs = append(docs, randomDoc(rng, o))
 			}
 			cases := []Case{}
+			// more tracks than any worker pool or block size a writer might use
+			for _, n := range []int{1027, 2050} {
+				cases = append(cases, Case{"doc": docs[1], "flags": Flags{}, "tracks": n}, Case{"doc": docs[3], "flags": Flags{}, "tracks": n})
+			}
 			for i, d := range docs {
 				for j, n := range ns {
 					if i >= 5 && !c.quick() && (i+j)%2 == 1 { // thorough: half of the (doc, N) pairs of the random part
